@@ -51,7 +51,7 @@ func NewNumericEstimator(f ScalarPdf) (*NumericEstimator, error) {
   r.Epsilon            = 1e-8
   r.MaxIterations      = 20
   r.StepInit           = 1e-2
-  r.Eta                = []float64{0.9,1.1}
+  r.Eta                = []float64{1.1,0.9}
   return &r, nil
 }
 
